@@ -39,10 +39,25 @@ package phantoms
 //@ func (sc genericSubnetConfig) GetWeightedSubnets() []*pb.PhantomSubnets
 //@   assigns nothing
 
-// frame of the subnet-group parser (builds fresh objects)
-//@ func parseSubnets(phantomSubnet *pb.PhantomSubnets) ([]*phantomNet, error)
+// C14 "stays inside the configured subnets": the address arithmetic starts from the base of the parsed network, so the
+// network a configured CIDR string stands for must be the one net.ParseCIDR derives from it (base address masked to
+// the prefix length - "192.0.2.77/24" stands for 192.0.2.0/24 - with the canonical mask); a network assembled any other
+// way keeps the host bits as written and base + offset then leaves the subnet.
+//@ func parseSubnet(phantomSubnet string) (*net.IPNet, error)
+//@   ensures @C14: result1 == nil ==> result0 != nil && result0 == cidrOf(phantomSubnet)
+//@   ensures @C14: !validCIDR(phantomSubnet) ==> result1 != nil
 //@   assigns nothing
-//@   trusted
+// the subnet-group parser (builds fresh objects): every subnet of the group is parsed by parseSubnet and stored as parsed
+//@ func parseSubnets(phantomSubnet *pb.PhantomSubnets) ([]*phantomNet, error)
+//@   requires phantomSubnet != nil
+//@   ensures @C14: result1 == nil ==> len(result0) == len(phantomSubnet.Subnets) && (forall i int :: 0 <= i && i < len(result0) ==> result0[i] != nil && result0[i].IPNet == cidrOf(phantomSubnet.Subnets[i]))
+//@   assigns nothing
+//@ loop 1:
+//@   invariant 0 <= iter && iter <= len(phantomSubnet.Subnets) && phantomSubnet != nil && phantomSubnet.Subnets == old(phantomSubnet.Subnets)
+//@   invariant forall i int :: 0 <= i && i < len(phantomSubnet.Subnets) ==> phantomSubnet.Subnets[i] == old(phantomSubnet.Subnets[i])
+//@   invariant len(subnets) == iter
+//@   invariant (cap(subnets) == 0 || fresh(subnets))
+//@   invariant forall i int :: 0 <= i && i < iter ==> subnets[i] != nil && fresh(subnets[i]) && subnets[i].IPNet == cidrOf(phantomSubnet.Subnets[i])
 
 // C14: "... or selection fails with an error": no input (seed, configuration) makes the subnet choice panic; in
 // particular crypto/rand.Int panics for a non-positive bound, so the total weight must be positive when it is used.
